@@ -14,7 +14,7 @@ tensors ending in the root, and tensors' flags are as they were.  Everything els
 """
 import z3
 
-from ..pyvc.engine import Executor, State, Obj, Opaque, Raised, LoopContract, to_z3
+from ..pyvc.engine import Executor, State, Obj, Opaque, Raised, LoopContract, Unsupported, to_z3
 from ..pyvc.harness import Target
 
 TENSOR_PY = "synapgrad/tensor.py"
@@ -109,6 +109,15 @@ def targets():
                     st.attrs(r).update(dtype=args[1], kind=st.attrs(args[0])["kind"])
                     return r
                 ex.models["ndarray.astype"] = astype
+
+                def np_array(ex_, st, args, kw):            # np.array(<array>, dtype=<dtype>): the same content as a fresh array of that dtype (the other spelling of astype)
+                    dt = kw.get("dtype", args[1] if len(args) > 1 else None)
+                    if not isinstance(args[0], Obj) or dt is None:
+                        raise Unsupported("np.array of something that is not a modelled array, or without a dtype")
+                    r = Obj("ndarray")
+                    st.attrs(r).update(dtype=dt, kind=st.attrs(args[0])["kind"])
+                    return r
+                ex.models["np.array"] = np_array
 
                 # nodes of the order: position p of the sequence; the root sits at n-1 and IS the tensor backward was called on
                 def set_node_grad(ex_, st, o, value):
